@@ -553,8 +553,11 @@ def reshape(self, *newdims, **kwargs):
 
     assert len(newdims_unflattened) == len(set(newdims_unflattened)), "must not contain duplicate axes !"
 
-    for ax in o.axes:
-        ax.name = ax.name.replace(',',';')
+    if any(',' in ax.name for ax in o.axes):
+        # (on copies of the axes: without a flattened axis, unflatten returned this very array)
+        o = o._constructor(o.values, [ax.copy() for ax in o.axes], **o.attrs)
+        for ax in o.axes:
+            ax.name = ax.name.replace(',',';')
 
     # Remove unwanted singleton dimensions, if any
     for dim in o.dims:
